@@ -58,13 +58,11 @@ func c06Round(t *testing.T, rng *rand.Rand, queries bool) (viol []string, stats 
 		var stamp atomic.Int64
 		var mu sync.Mutex
 		var ops []*c06Op
-		var wg sync.WaitGroup
+		wg := newBGroup()
 		start := make(chan struct{})
 		nextID := atomic.Int64{}
 		for g := 0; g < G; g++ {
-			wg.Add(1)
-			go func(g int) {
-				defer wg.Done()
+			wg.Go(func() {
 				<-start
 				for k := 0; k < K; k++ {
 					id := int(nextID.Add(1))
@@ -90,12 +88,10 @@ func c06Round(t *testing.T, rng *rand.Rand, queries bool) (viol []string, stats 
 					ops = append(ops, op)
 					mu.Unlock()
 				}
-			}(g)
+			})
 		}
 		if feed {
-			wg.Add(1)
-			go func() {
-				defer wg.Done()
+			wg.Go(func() {
 				lr := rand.New(rand.NewSource(seeds[G]))
 				<-start
 				for k := 0; k < K*2; k++ {
@@ -126,7 +122,7 @@ func c06Round(t *testing.T, rng *rand.Rand, queries bool) (viol []string, stats 
 					ops = append(ops, op)
 					mu.Unlock()
 				}
-			}()
+			})
 		}
 		close(start)
 		wg.Wait()
